@@ -164,6 +164,9 @@ func runC11(c *Ctx) {
 		if negZeroTok.MatchString(cs.doc) {
 			flags = append(flags, "B24")
 		}
+		if c05LastTokenZero.MatchString(cs.doc) {
+			flags = append(flags, "B42") // the byte behind a final 0 / -0 token is read: it differs between two processes
+		}
 		if cs.cfg.std && !utf8.ValidString(cs.doc) {
 			flags = append(flags, "B12")
 		}
@@ -445,7 +448,14 @@ func runC13(c *Ctx) {
 	}
 	emit := func(i int, kind, input, transcript string) {
 		c.Vf("KIND %s INPUT %q\nTRANSCRIPT %s", kind, input, transcript)
-		c.Digest(i, h64(transcript))
+		flag := ""
+		if doc := strings.SplitN(input, "\x00", 2)[0]; kind != "blockstr" && kind != "string" && kind != "escapes" && c05LastTokenZero.MatchString(doc) {
+			// known finding B42: behind a number token 0 / -0 that ends the input the native scanner
+			// reads one byte more, and what lies there differs between two processes
+			flag = " B42"
+			c.Count("inputs_ending_in_a_zero_token(B42 attribution)", 1)
+		}
+		c.Digest(i, h64(transcript)+flag)
 		c.Distinct(gen.HashString(kind+input), len(input) > 0)
 		c.Count("inputs_"+kind, 1)
 	}
@@ -515,7 +525,7 @@ func runC13(c *Ctx) {
 			lit := r.NumberLiteral()
 			f, gg, iv := r.InterestingFloat64(), r.InterestingFloat32(), int64(r.U64())>>uint(r.Intn(64))
 			c.Guard(i, "number APIs", func() { t = c13Num(lit, f, gg, iv) })
-			emit(i, "number", lit+fmt.Sprint(f, gg, iv), t)
+			emit(i, "number", lit+"\x00"+fmt.Sprint(f, gg, iv), t)
 		}
 	}
 	_ = bytes.Equal
